@@ -288,7 +288,7 @@ def exec_stmt(st, s, rng):
         v = None
         if f == "add": v = a + b
         elif f == "sub": v = a - b
-        elif f == "mul": v = a * b
+        elif f == "mul": v = a * b if (a.bit_length() + b.bit_length() <= 4096) else None      # else: the run stops (sample dropped)
         elif f == "sdiv": v = tdiv(a, b) if b != 0 else None
         elif f == "srem": v = trem(a, b) if b != 0 else None
         elif f == "udiv": v = a // b if (a >= 0 and b > 0) else None
